@@ -8,6 +8,7 @@
 -/
 import Emu.Proofs.Ranges
 import Emu.Bt.Server
+import Emu.Proofs.LeafTie.KeysOutOfRange
 
 namespace Emu.Props.C03
 open Emu Emu.Bt Emu.Proofs.BtRows Emu.Proofs.Ranges
@@ -95,5 +96,14 @@ example :
     let rows : Rows := [⟨[97], []⟩, ⟨[97, 0], []⟩, ⟨[97, 98], []⟩, ⟨[98], []⟩]
     (scanVisit (scanRanges [[98]] [⟨.opened [97], .closed [97, 98]⟩, ⟨.closed [97, 0], .opened [98]⟩]) rows).map (·.key)
       = [[97, 0], [97, 98], [98]] := by decide
+
+/-! ### Tie T1: the repository's own text of the inverted-range test
+
+`Emu.Generated.Leaf.keysOutOfRange` is regenerated from `keysOutOfRange` (validation.go) by the
+leaf translator on every run; the Model's function is the same function. -/
+
+theorem source_keysOutOfRange_is_the_models (s e : Bytes) :
+    Emu.Generated.Leaf.keysOutOfRange s e = Emu.Bt.keysOutOfRange s e :=
+  Emu.Proofs.LeafTie.keysOutOfRange_tie s e
 
 end Emu.Props.C03
